@@ -164,6 +164,63 @@ def shot_noise_rejects(case, ctx):
                   f"shot_noise({case['method']}) with a {case['bad']} value ({case['form']})")
 
 
+@st.composite
+def boundary_case(draw, tier):
+    return {"method": draw(st.sampled_from(["poisson", "gaussian"])),
+            "k_sigma": draw(st.sampled_from([0.0, 0.25, 0.5, 1.0, 2.0, 3.0, 5.0, 8.0, 9.5, 9.99, 10.01, 10.5, 12.0, 20.0, 100.0,
+                                             1e4, 1e6])) if draw(st.booleans()) else draw(gen.finite(0.0, 15.0)),
+            "above": draw(st.sampled_from([None, None, None, 0, 1, 2, 1000])),
+            "form": draw(st.sampled_from(["array_all", "array_one", "scalar"])),
+            "seed": draw(st.integers(0, 2**32 - 1))}
+
+
+@hyp("C18", "shot_noise_boundary", lambda tier: boundary_case(tier),
+     "signals on a ladder approaching the largest representable count (2^63 minus k standard deviations, and the "
+     "first floats at/above 2^63): every call either raises ValueError or returns a well-formed draw (non-negative, "
+     "finite, within 12 sigma of the signal, reproducible); at or above 2^63 it must raise", examples=(200, 800))
+def shot_noise_boundary(case, ctx):
+    top = 2.0 ** 63
+    sigma = np.sqrt(top)
+    if case["above"] is not None:
+        lam = top
+        for _ in range(case["above"]):
+            lam = float(np.nextafter(lam, np.inf))
+    else:
+        lam = top - case["k_sigma"] * sigma
+    n = 4000
+    if case["form"] == "scalar":
+        img = lam
+    elif case["form"] == "array_all":
+        img = np.full((40, 100), lam)
+    else:
+        img = np.full((40, 100), 5000.0)
+        img[17, 23] = lam
+    ctx.tag("method:" + case["method"], "form:" + case["form"],
+            "at_or_above_2^63" if lam >= top else ("within_10_sigma" if case["k_sigma"] < 10 else "below_10_sigma"))
+    ctx.nontrivial_if(lam < top)
+    what = f"shot_noise({case['method']}, signal 2^63 - {(top - lam) / sigma:.4g} sigma = {lam!r}, {case['form']})"
+    try:
+        out = detector.shot_noise(img, method=case["method"], seed=case["seed"])
+    except ValueError:
+        ctx.tag("rejected")
+        return
+    except Exception as e:  # noqa: BLE001
+        raise Violation("C18.boundary.raised", f"{what} raised {type(e).__name__}: {e}")
+    ctx.tag("accepted")
+    if lam >= top:
+        raise Violation("C18.boundary.accepted", f"{what}: an unrepresentably large signal was not rejected")
+    o = np.asarray(out, dtype=float)
+    v = o if case["form"] != "array_one" else o[17, 23]
+    if not np.all(np.isfinite(o)) or np.any(o < 0):
+        raise Violation("C18.boundary.negative", f"{what} was accepted but returned negative / non-finite counts "
+                                                 f"(min {float(np.min(o)):.6g})")
+    if np.any(np.abs(np.asarray(v) - lam) > 12 * np.sqrt(lam) + 4096):
+        raise Violation("C18.boundary.range", f"{what}: draw farther than 12 sigma from the signal")
+    again = np.asarray(detector.shot_noise(img, method=case["method"], seed=case["seed"]), dtype=float)
+    if not np.array_equal(again, o):
+        raise Violation("C18.boundary.reproducible", f"{what}: same seed, different draw")
+
+
 # --- read noise, dark current -----------------------------------------------------------------------------------
 
 @st.composite
